@@ -19,6 +19,7 @@ Inductive case :=
 | CSample (r : recipe) (grid : list Q) (o : obs)
 | CEq (r1 r2 : recipe) (built : bool) (eq_impl : bool) (hash_eq : option bool)
 | CHist (r : recipe) (calls : list call) (answers : list sres)
+| CDec (r : recipe) (grid : list Q) (o : obs)     (* decimal stream: binary64 results, compared under [tol] *)
 | CCrash.
 
 Definition err_eqb (a b : err) : bool :=
@@ -34,6 +35,21 @@ Definition sres_eqb (a b : sres) : bool :=
   end.
 Definition sres_of (r : res (list (option Q))) : sres := match r with OK v => SOK v | Err e => SErr e end.
 
+(* ---- decimal stream: durations k/10, k/3 ... are not binary fractions, the implementation's samples are rounded
+   binary64 results; they are compared with the exact rational model / denotation under the declared absolute
+   tolerance 2^-30 (which piece answers a junction is still decided exactly: the generated ramps start and end at
+   different values, a wrong piece is off by far more) ---- *)
+Definition tol : Q := 1 # 1073741824.
+Definition approxb (a b : Q) : bool := Qle_bool (Qabs (a - b)) tol.
+Definition oapproxb (a b : option Q) : bool :=
+  match a, b with Some x, Some y => approxb x y | None, None => true | _, _ => false end.
+Definition sres_approxb (a b : sres) : bool :=
+  match a, b with
+  | SOK x, SOK y => list_eqb oapproxb x y
+  | SErr e, SErr f => err_eqb e f
+  | _, _ => false
+  end.
+
 Definition corr_chan (w : wf) (grid : list Q) (o : chobs) : bool :=
   let c := co_c o in
   (if inb c (channels w) then oQeqb (cv w c) (co_cv o) else true)
@@ -41,6 +57,15 @@ Definition corr_chan (w : wf) (grid : list Q) (o : chobs) : bool :=
   && match co_us o with
      | None => true
      | Some us => sres_eqb (if zdiv w c then SErr EZeroDiv else if kerr w c then SErr EKey else SOK (sample_vec w c grid)) us
+     end.
+
+Definition corr_chan_tol (w : wf) (grid : list Q) (o : chobs) : bool :=
+  let c := co_c o in
+  (if inb c (channels w) then oapproxb (cv w c) (co_cv o) else true)
+  && sres_approxb (sres_of (get_sampled w c grid)) (co_gs o)
+  && match co_us o with
+     | None => true
+     | Some us => sres_approxb (if zdiv w c then SErr EZeroDiv else if kerr w c then SErr EKey else SOK (sample_vec w c grid)) us
      end.
 
 Definition check_corr (k : case) : bool :=
@@ -61,6 +86,13 @@ Definition check_corr (k : case) : bool :=
       match build r with
       | OK w => list_eqb sres_eqb (map sres_of (run_hist w (map (fun ca => (ca_c ca, ca_arr ca, ca_ts ca)) calls) [])) answers
       | Err _ => match answers with [] => true | _ => false end
+      end
+  | CDec r grid o =>
+      match build r, o with
+      | Err e, OErr f => err_eqb e f
+      | OK w, OBuilt chs dur per =>
+          set_eqb chs (channels w) && Qeq_bool dur (duration w) && forallb (corr_chan_tol w grid) per
+      | _, _ => false
       end
   | CCrash => false
   end.
@@ -84,6 +116,20 @@ Definition spec_chan (wp : wf) (grid : list Q) (o : chobs) : bool :=
      end)
     && match co_gs o with
        | SOK vals => forallb2 (fun t v => match v with Some _ => oQeqb v (den wp c t) | None => false end) grid vals
+       | SErr _ => false
+       end.
+
+Definition spec_chan_tol (wp : wf) (grid : list Q) (o : chobs) : bool :=
+  let c := co_c o in
+  if negb (inb c (channels wp)) then true
+  else if zdiv wp c then true
+  else
+    (match co_cv o with
+     | Some v => forallb (fun t => oapproxb (den wp c t) (Some v)) grid
+     | None => true
+     end)
+    && match co_gs o with
+       | SOK vals => forallb2 (fun t v => match v with Some _ => oapproxb v (den wp c t) | None => false end) grid vals
        | SErr _ => false
        end.
 
@@ -115,6 +161,17 @@ Definition check_spec (k : case) : bool :=
       match build_plain r with
       | Err _ => true
       | OK wp => forallb2 (spec_answer wp) calls answers
+      end
+  | CDec r grid o =>
+      match build_plain r with
+      | Err _ => true
+      | OK wp =>
+          match o with
+          | OErr _ => false
+          | OBuilt chs dur per =>
+              set_eqb chs (channels wp) && Qeq_bool dur (duration wp)
+              && (if sortedb grid && in_range wp grid then forallb (spec_chan_tol wp grid) per else true)
+          end
       end
   | CCrash => false
   end.
